@@ -174,7 +174,14 @@ func H_E2E_PowerFailure(v *verifrt.T) {
 		}}
 		stop, done := make(chan bool, 1), make(chan bool, 1)
 		stop <- true // one-shot
-		broker.Start(stop, done)
+		go broker.Start(stop, done)
+		// bounded liveness: the one-shot run ends before 200 timers have fired
+		for r := 0; r < 200 && len(done) == 0; r++ {
+			v.QuiesceTimers(1)
+		}
+		if len(done) == 0 {
+			v.Assert(false, "C07 the sender finishes its work: every file it transmitted is confirmed, marked done and the run ends")
+		}
 		v.Quiesce()
 	}
 	m0 := v.FSMutations()
